@@ -5,7 +5,7 @@ CFG = dict(
     confirm_scenario_diffs=True,
     model="C05",
     overlay=["sim", "c05"],
-    required_theorems=["Props.C05stamps.stamps_never_repeat", "Props.C05stamps.bump_only_for_failed_sequenced_message", "Props.C05stamps.stamps_dense", "Props.C05stamps.step_sinv", "Props.C05.arrive_inv", "Props.C05.arriveAll_inv", "Props.C05.no_two_records_share_stamp",
+    required_theorems=["Props.C05stamps.stamps_never_repeat", "Props.C05.no_duplicate_append_of_wire_stamp_function", "Props.C05stamps.bump_only_for_failed_sequenced_message", "Props.C05stamps.stamps_dense", "Props.C05stamps.step_sinv", "Props.C05.arrive_inv", "Props.C05.arriveAll_inv", "Props.C05.no_two_records_share_stamp",
                        "Props.C05.no_duplicate_append", "Props.C05.resend_is_deduplicated",
                        "Props.C05.sequence_assigned_once", "Props.C05.sequence_only_on_first_forward",
                        "Props.C05bp.bpI_at_most_one_set_in_flight", "Props.C05bp.bpI_conservation", "Props.C05bp.bpI_only_data_buffered",
